@@ -15,10 +15,23 @@
               those marked `quiet` (bytes were lost, the damaged packet swallows the head of P1 and
               its data units still parse without an error)
      "orig"   policy "none" on the not-quiet streams  (expected to fail: the defect repaired in /repo)
-     "known"  policy "err" on the quiet streams       (expected to fail: the known finding)          *)
+     "known"  policy "err" on the quiet streams       (expected to fail: the known finding)
+
+   Continuity (transport stream): a stream of 21 transport packets (7 PES packets) whose counters begin at
+   every value of CcStarts - so every counter value 0 .. 15 and the wrap 15 -> 0 occur at the start, in the
+   middle and at the end of a PES packet -
+     DupTransparent  sending any one packet twice (immediately, or with a packet of another PID between), and
+                     inserting packets of other PIDs, null packets or adaptation-field-only packets of the own
+                     PID anywhere changes nothing: the same frames are delivered (ISO 13818-1 2.4.3.3)
+     LossBounded     losing any one packet costs at most the frames up to and including the first frame after
+                     the damaged PES packet: all later frames are delivered as sent
+   Capacity (MC_DvbDemux_cap.cfg, MaxLines = 3): frames of exactly MaxLines lines are ordinary frames (all
+   frames delivered), frames of more data units (in one PES packet, or spread over two packets of the same
+   frame, known and undefined line numbers) are damage: Recovery; all partitions, max_lines 1 .. MaxLines. *)
 EXTENDS DvbDemux
 
-CONSTANTS Streams, RecStreams, CorLines, Policies, RecMode
+CONSTANTS Streams, RecStreams, CorLines, Policies, RecMode,
+          CcStarts     \* continuity counter values the streams of the continuity family begin with (subset of 0..15)
 VARIABLES sid, mode, s
 vars == <<sid, mode, s>>
 
@@ -55,7 +68,10 @@ PartitionInvariance ==
 OnePieceOK == \A i \in 1..Len(RecStreams) : \A pol \in Policies : ~RecStreams[i].ts =>
                 Feed(RecStreams[i].bytes, S0(FALSE, TRUE, 0, pol), Len(RecStreams[i].bytes)).d.out
                   = Frames(RecStreams[i].bytes, Len(RecStreams[i].bytes), pol)
-OnePiece == OnePieceOK
+(* facts about the reference, not about the state: TLC evaluates an invariant in every distinct state, so they are
+   asked for in the initial states of the first stream only *)
+AtStart == s.ce = 0 /\ sid = 1 /\ mode = 0
+OnePiece == AtStart => OnePieceOK
 NoLookaheadOverrun == ~s.bad /\ s.rd <= s.ce /\ s.left <= s.rd /\ s.tn <= s.rd
 Consumed == mode = 0 => s.rd = s.ce           \* a feed call uses up its buffer
 
@@ -67,10 +83,10 @@ Asserted(st, pol) == IF st.ts THEN pol = "all" /\ RecMode = "std"
 Recovers(st, pol) == IsSuffix(st.sent, Whole(st, Len(st.bytes), pol))
 RecoveryOK == \A i \in 1..Len(RecStreams) : \A pol \in {"none", "err", "all"} :
                  Asserted(RecStreams[i], pol) => (Recovers(RecStreams[i], pol) \/ (PrintT(<<"no recovery", i, pol>>) /\ FALSE))
-Recovery == RecoveryOK
+Recovery == AtStart => RecoveryOK
 \* vacuity guard: the damaged streams do differ from the intact one, and something is asserted
-RecoveryMeaningful == /\ \E i \in 1..Len(RecStreams) : \E pol \in {"none", "err", "all"} : Asserted(RecStreams[i], pol)
-                      /\ \A i \in 2..Len(RecStreams) : RecStreams[i].ts = RecStreams[1].ts => RecStreams[i].bytes # RecStreams[1].bytes
+RecoveryMeaningful == AtStart => /\ \E i \in 1..Len(RecStreams) : \E pol \in {"none", "err", "all"} : Asserted(RecStreams[i], pol)
+                                 /\ \A i \in 2..Len(RecStreams) : RecStreams[i].ts = RecStreams[1].ts => RecStreams[i].bytes # RecStreams[1].bytes
 
 -----------------------------------------------------------------------------
 (* streams for the scaled layout HdlVal = 5, MinPL = 27, TtxN = 2, VpsN = 1, TSP = 11, HL = 17:
@@ -114,6 +130,8 @@ PesDamage == <<
 PesStream(i, tail) == [ts |-> FALSE, pid |-> 0, bytes |-> PesDamage[i].b \o tail, sent |-> Sent4, quiet |-> PesDamage[i].q]
 
 Ts(i, cc) == TsPackets(Pk(i), 291, cc, TRUE)            \* 3 packets each
+Ts4(i, cc) == TsPackets(EncPes(Fr[i], Pts(i), 153, 44), 291, cc, TRUE)     \* the same frame in 4 packets
+Ts5(i, cc) == TsPackets(EncPes(Fr[i], Pts(i), 153, 55), 291, cc, TRUE)     \* in 5 packets
 TsTail4 == Ts(1, 5) \o Ts(2, 8) \o Ts(3, 11) \o Ts(4, 14)
 TsTail2 == Ts(1, 5) \o Ts(2, 8)
 Other == <<71, 0, 17, 16, 1, 2, 3, 4, 5, 6, 7, 8, 9, 10, 11>>      \* other PID
@@ -127,7 +145,10 @@ TsDamage == <<
    SubSeq(Ts(5, 2), 1, 20) \o <<1, 1>> \o SubSeq(Ts(5, 2), 21, 45),  \* two bytes inserted: sync lost
    SetAt(Ts(5, 2), 16, 128),                                       \* transport error indicator
    SetAt(Ts(5, 2), 16, 65),                                        \* unexpected payload unit start
-   Ts(6, 15) \o SubSeq(Ts(5, 2), 1, 44) >>                          \* intact packet, then one with its last byte lost
+   Ts(6, 15) \o SubSeq(Ts(5, 2), 1, 44),                           \* 10 intact packet, then one with its last byte lost
+   SubSeq(Ts(6, 15), 1, 15) \o Ts(6, 15) \o Ts(5, 2),              \* 11 first packet of a PES packet, counter 15, sent twice (15 15 0 1 2 ..)
+   SubSeq(Ts(6, 14), 1, 30) \o SubSeq(Ts(6, 14), 16, 45) \o Ts4(5, 1),   \* 12 middle packet, counter 15, sent twice (14 15 15 0 1 ..)
+   SubSeq(Ts(6, 13), 1, 45) \o SubSeq(Ts(6, 13), 31, 45) \o Ts5(5, 0) >>   \* 13 last packet, counter 15, sent twice (13 14 15 15 0 ..)
 TsStream(i, tail) == [ts |-> TRUE, pid |-> 291, bytes |-> TsDamage[i] \o tail, sent |-> Sent4, quiet |-> FALSE]
 
 Sel(f(_, _), ix, tail) == [k \in 1..Len(ix) |-> f(ix[k], tail)]
@@ -136,7 +157,86 @@ AllTs == [i \in 1..Len(TsDamage) |-> i]
 
 RecAll == Sel(PesStream, AllPes, Tail4) \o Sel(TsStream, AllTs, TsTail4)
 \* partitions: quick = three representative streams, thorough = every damage followed by two packets
-StreamsQ == Sel(PesStream, <<14>>, Tail2) \o Sel(TsStream, <<5>>, TsTail2)
+StreamsQ == Sel(PesStream, <<3, 14>>, Tail2) \o Sel(TsStream, <<5, 12>>, TsTail2)
 StreamsO == Sel(PesStream, <<3>>, Tail2)
 StreamsT == Sel(PesStream, AllPes, Tail2) \o Sel(TsStream, AllTs, TsTail2)
+
+-----------------------------------------------------------------------------
+(* ---- continuity counter over its whole range ---- *)
+CSeq == <<6, 1, 2, 3, 4, 6, 1>>                       \* consecutive frames are recognisable, also across one lost frame
+NC == Len(CSeq)
+CPts(j) == <<j % 8, 500 * j + 3>>
+CPk(j) == EncPes(Fr[CSeq[j]], CPts(j), 153, 33)
+CDeliv(j) == [lines |-> [i \in 1..Len(Fr[CSeq[j]]) |-> Rx(Fr[CSeq[j]][i])], pts |-> CPts(j)]
+CPackets(cc0) == LET b == Cat([j \in 1..NC |-> TsPackets(CPk(j), 291, cc0 + 3 * (j - 1), TRUE)])
+                 IN [k \in 1..(3 * NC) |-> SubSeq(b, TSL * (k - 1) + 1, TSL * k)]
+NP == 3 * NC
+PesOfPacket(k) == ((k - 1) \div 3) + 1
+Null == <<71, 31, 255, 16>> \o [i \in 1..TSP |-> 255]                               \* null packet, PID 0x1FFF
+AfOnly(cc) == <<71, 1, 35, 32 + (cc % 16)>> \o <<TSP - 1, 0>> \o [i \in 1..(TSP - 2) |-> 255]  \* own PID, adaptation field only:
+                                                                                      \* the counter is that of the previous packet
+WholeTs(b) == Feed(b, S0(TRUE, TRUE, 291, "all"), Len(b)).d.out
+Ins(ps, k, x) == Cat(SubSeq(ps, 1, k - 1)) \o x \o Cat(SubSeq(ps, k, Len(ps)))       \* x in front of packet k
+\* (tables: TLC evaluates a constant definition without parameters once)
+CPTab == [c \in CcStarts |-> CPackets(c)]
+BaseTab == [c \in CcStarts |-> WholeTs(Cat(CPTab[c]))]
+BaseOut(cc0) == BaseTab[cc0]
+DupTransparentOK ==
+  \A cc0 \in CcStarts : LET ps == CPTab[cc0]  ref == BaseTab[cc0] IN
+     /\ ref = [j \in 1..(NC - 1) |-> CDeliv(j)]                \* whatever the first counter value is
+     /\ \A k \in 1..NP :
+          /\ WholeTs(Ins(ps, k + 1, ps[k])) = ref \/ (PrintT(<<"duplicate packet changes the output", cc0, k>>) /\ FALSE)
+          /\ WholeTs(Ins(ps, k + 1, Other \o ps[k])) = ref \/ (PrintT(<<"duplicate behind a foreign packet changes the output", cc0, k>>) /\ FALSE)
+          \* three times is not allowed to a transmitter: the receiver may ignore the third packet too or take it for a loss
+          /\ k <= 12 => \/ IsSuffix([i \in 1..(NC - 2 - PesOfPacket(k)) |-> CDeliv(PesOfPacket(k) + 1 + i)], WholeTs(Ins(ps, k + 1, ps[k] \o ps[k])))
+                         \/ (PrintT(<<"packet sent three times costs more than the damaged and the next frame", cc0, k>>) /\ FALSE)
+          /\ WholeTs(Ins(ps, k, Other)) = ref /\ WholeTs(Ins(ps, k, Null \o Other)) = ref
+          /\ WholeTs(Ins(ps, k + 1, AfOnly(cc0 + k - 1))) = ref \/ (PrintT(<<"adaptation field only packet changes the output", cc0, k>>) /\ FALSE)
+DupTransparent == AtStart => DupTransparentOK
+(* packet k lost (k in the first four PES packets): the frames behind the first frame after the damaged PES packet *)
+LossBoundedOK ==
+  \A cc0 \in CcStarts : LET ps == CPTab[cc0] IN
+     \A k \in 1..12 :
+        LET j == PesOfPacket(k)
+            out == WholeTs(Cat(SubSeq(ps, 1, k - 1)) \o Cat(SubSeq(ps, k + 1, NP)))
+        IN \/ /\ IsSuffix([i \in 1..(NC - 2 - j) |-> CDeliv(j + 1 + i)], out)
+              /\ out # BaseOut(cc0)                             \* and the loss is a loss
+           \/ (PrintT(<<"lost packet costs more than the damaged and the next frame", cc0, k>>) /\ FALSE)
+LossBounded == AtStart => LossBoundedOK
+
+-----------------------------------------------------------------------------
+(* ---- capacity of a frame (MaxLines = 3 in MC_DvbDemux_cap.cfg) ---- *)
+CapFr == << <<T(7, 60, 61), T(0, 62, 63), T(0, 64, 65)>>,                               \* 1: exactly MaxLines, undefined lines
+            <<T(7, 60, 61), T(9, 62, 63), T(320, 64, 65)>>,                             \* 2: exactly MaxLines, known lines
+            <<T(7, 60, 61), T(0, 62, 63), T(0, 64, 65), T(0, 66, 67)>>,                 \* 3: one unit too many, undefined lines
+            <<T(7, 60, 61), T(9, 62, 63), T(10, 64, 65), T(320, 66, 67), T(321, 68, 69)>>,   \* 4: two too many, known lines
+            <<T(7, 60, 61), T(0, 62, 63)>>, <<T(0, 64, 65), T(0, 66, 67)>>,             \* 5 + 6: one frame in two packets, 4 units
+            <<T(7, 60, 61), T(8, 62, 63)>>, <<T(9, 64, 65), T(10, 66, 67)>>,            \* 7 + 8: the same with known lines
+            <<T(0, 66, 67)>> >>                                                          \* 9: behind 1: the frame goes on in a second packet
+CapPts == <<6, 4242>>
+CapPk(i) == EncPes(CapFr[i], CapPts, 153, 33)
+CapDeliv(i) == [lines |-> CapFr[i], pts |-> CapPts]
+Sent14 == <<Deliv(1), Deliv(2), Deliv(3)>>
+\* [bytes, sent]: an exactly full frame is an ordinary frame - it and everything behind it is delivered
+CapDamage == <<
+   [b |-> CapPk(1), sent |-> <<CapDeliv(1)>> \o Sent14],
+   [b |-> CapPk(2), sent |-> <<CapDeliv(2)>> \o Sent14],
+   [b |-> Pk(6) \o CapPk(1), sent |-> <<Deliv(6), CapDeliv(1)>> \o Sent14],
+   [b |-> CapPk(3), sent |-> Sent4],
+   [b |-> CapPk(4), sent |-> Sent4],
+   [b |-> CapPk(5) \o CapPk(6), sent |-> Sent4],
+   [b |-> CapPk(7) \o CapPk(8), sent |-> Sent4],
+   [b |-> CapPk(1) \o CapPk(9), sent |-> Sent4],
+   [b |-> Pk(6) \o CapPk(3), sent |-> Sent4] >>
+CapPes(i, tail) == [ts |-> FALSE, pid |-> 0, bytes |-> CapDamage[i].b \o tail, sent |-> CapDamage[i].sent, quiet |-> FALSE]
+RECURSIVE TsOfPes(_, _)        \* a sequence of whole PES packets as transport packets, counters from cc
+TsOfPes(b, cc) == IF b = <<>> THEN <<>>
+                  ELSE LET n == PLen(b, 0) + 6 IN TsPackets(SubSeq(b, 1, n), 291, cc, TRUE) \o TsOfPes(SubSeq(b, n + 1, Len(b)), cc + (n \div TSP))
+CapTs(i, tail) == [ts |-> TRUE, pid |-> 291, bytes |-> TsOfPes(CapDamage[i].b \o tail, 9), sent |-> CapDamage[i].sent, quiet |-> FALSE]
+AllCap == [i \in 1..Len(CapDamage) |-> i]
+RecCap == Sel(CapPes, AllCap, Tail4) \o Sel(CapTs, AllCap, Tail4)
+StreamsNil == << [ts |-> TRUE, pid |-> 291, bytes |-> <<71>>, sent |-> <<>>, quiet |-> FALSE] >>   \* MC_DvbDemux_cont.cfg: the facts alone
+\* quick: an exactly full frame / a frame with one unit too many in one packet / in two packets
+StreamsCq == Sel(CapPes, <<1, 4, 6>>, Tail2) \o Sel(CapTs, <<1, 4>>, Tail2)
+StreamsCt == Sel(CapPes, AllCap, Tail2) \o Sel(CapTs, AllCap, Tail2)
 =============================================================================
